@@ -3,6 +3,7 @@ package alephium
 import (
 	"context"
 	"encoding/hex"
+	"time"
 
 	sdk "github.com/alephium/go-sdk"
 	"github.com/alephium/wormhole-fork/node/pkg/vaa"
@@ -61,8 +62,9 @@ func (w *Watcher) handleObsvRequest(ctx context.Context, logger *zap.Logger, cli
 			}
 
 			confirmed := make([]*reobservedEvent, 0)
+			now := time.Now().UnixMilli()
 			for _, event := range events {
-				if event.header.Height+int32(event.confirmations) <= *currentHeight {
+				if event.header.Height+int32(event.confirmations) <= *currentHeight && event.header.Timestamp+event.confirmationDuration <= now {
 					logger.Info("re-observed event",
 						zap.String("txId", txId),
 						zap.String("blockHash", blockHash),
@@ -125,6 +127,11 @@ func (w *Watcher) getGovernanceEventsByTxId(
 
 	reobservedEvents := make([]*reobservedEvent, 0)
 	for _, event := range events.Events {
+		// The transaction's events cover every contract it touched and every block it was
+		// included in: only the governance contract's events in the confirmed block count.
+		if event.ContractAddress != address || event.BlockHash != blockHash {
+			continue
+		}
 		if event.EventIndex != WormholeMessageEventIndex {
 			continue
 		}
@@ -150,6 +157,7 @@ func (w *Watcher) getGovernanceEventsByTxId(
 		reobservedEvents = append(reobservedEvents, &reobservedEvent{
 			&contractEvent,
 			msg.consistencyLevel,
+			getConfirmationDuration(w.isMainnet, msg.IsTransferTokenVAA(), msg.consistencyLevel),
 			header,
 			txId,
 		})
@@ -160,6 +168,8 @@ func (w *Watcher) getGovernanceEventsByTxId(
 type reobservedEvent struct {
 	*sdk.ContractEventByTxId
 	confirmations uint8
-	header        *sdk.BlockHeaderEntry
-	txId          string
+	// minimal age of the block (ms) before the event may be forwarded, as on the polling path
+	confirmationDuration int64
+	header               *sdk.BlockHeaderEntry
+	txId                 string
 }
